@@ -639,3 +639,16 @@ Proof.
   destruct (every_slot_spec g n c E xs i HE HEc Hn Hw Hi) as (k & e & r & _ & _ & H1 & H2 & _ & H3 & H4 & _).
   exists r, (cellat xs k e). auto.
 Qed.
+
+(* ---------- small facts about the repaired loop ---------- *)
+(* n = 1: the record is the raw transition itself *)
+Lemma info_single g t : n_step_info g [t] = t.
+Proof. unfold n_step_info. destruct (any_done t); reflexivity. Qed.
+
+(* fix 6825082 changes the result only for windows that start on a terminal transition *)
+Lemma pinned_agrees g w : any_done (hd [] w) = false -> n_step_info_pinned g w = n_step_info g w.
+Proof. destruct w as [|t r]; cbn [hd n_step_info n_step_info_pinned]; [reflexivity|]. intros ->. reflexivity. Qed.
+
+(* ... and for those the repaired loop keeps the first transition unchanged *)
+Lemma info_terminal_start g t r : any_done t = true -> n_step_info g (t :: r) = t.
+Proof. intros H. cbn [n_step_info]. rewrite H. reflexivity. Qed.
